@@ -1,2 +1,340 @@
+# C11, second part: timestamps and flag sets (mpints: see the bounded units at the end)
+import enum
+import os
+import random
+
+import z3
+
+from cryptodatahub.common.exception import InvalidValue
+from cryptoparser.common.parse import ComposerBinary, ParserBinary, ByteOrder
+
+from pyvc import values as V, engine as E, interp as I, ops, vc, spec as S
+from pyvc.runner import Unit
+from pyvc.values import SInt, SObj, SDateTime, SFlags
+from spec import wire as W
+from checks import common, e1
+
+
+def composer(order=ByteOrder.NETWORK):
+    return SObj(ComposerBinary, dict(_composed=b'', byte_order=order))
+
+
+def parser(buf, order=ByteOrder.NETWORK):
+    return SObj(ParserBinary, dict(_parsable=buf, _parsed_length=0, _parsed_values={}, byte_order=order))
+
+
+# ------------------------------------------------------------------------------------------------ timestamps
+def ts_roundtrip(item_size, ms):
+    def thunk():
+        P = E.cur()
+        secs, m = z3.Int('secs'), z3.Int('millis')
+        P.assume(z3.And(secs >= 0, secs < 2 ** 32))                  # instants 1970..2106 (the property's range)
+        P.assume(z3.And(m >= 0, m < 1000) if ms else m == 0)
+        stamp = secs * 1000 + m if ms else secs
+        P.assume(stamp < 256 ** item_size - 1)                       # fits the field and is not the 'forever' sentinel
+        P.inputs.update(seconds=SInt(secs), milliseconds=SInt(m))
+        aware = P.choose('aware datetime')
+        t = SDateTime(secs, m * 1000, aware=aware)
+        c = composer()
+        out = vc.outcome_of(lambda: I.call(I.getattr_(c, 'compose_timestamp'), [t], dict(milliseconds=ms, item_size=item_size)))
+        if out.kind == 'raise':
+            e1.record_path_fact(P, 'an instant that fits the field is composed (got %s)' % out.value.cls.__name__, False)
+            return
+        wire = ops.as_seq(c.f['_composed'])
+        P.oblige('the bytes are the big-endian count of %s since the epoch' % ('milliseconds' if ms else 'seconds'),
+                 z3.And(wire.n == item_size, S.dec(wire.at, 0, item_size, '!') == stamp))
+        rest, facts = V.base_seq('rest')
+        for f in facts:
+            P.assume(f)
+        p = parser(V.concat(wire, rest, 'bytes'))
+        I.call(I.getattr_(p, 'parse_timestamp'), ['t'], dict(milliseconds=ms, item_size=item_size))
+        back = p.f['_parsed_values']['t']
+        e1.record_path_fact(P, 'the parsed value is an instant (not the sentinel)', isinstance(back, SDateTime))
+        if isinstance(back, SDateTime):
+            P.oblige('parse(compose(t)) is the same instant', z3.And(back.secs == secs, back.micros == m * 1000))
+        P.oblige('the field width is consumed', ops.as_int(p.f['_parsed_length']) == item_size)
+    return lambda: (e1.setup(), vc.run_unit('timestamp', thunk))[1]
+
+
+def ts_sentinel(item_size, ms):
+    def thunk():
+        P = E.cur()
+        c = composer()
+        I.call(I.getattr_(c, 'compose_timestamp'), [None], dict(milliseconds=ms, item_size=item_size))
+        wire = ops.as_seq(c.f['_composed'])
+        P.oblige('"forever" is the all-ones value of the field', z3.And(wire.n == item_size, *[wire.at(k) == 255 for k in range(item_size)]))
+        p = parser(wire.copy('bytes'))
+        I.call(I.getattr_(p, 'parse_timestamp'), ['t'], dict(milliseconds=ms, item_size=item_size))
+        e1.record_path_fact(P, 'the all-ones value parses back to "forever" (None)', p.f['_parsed_values']['t'] is None)
+    return lambda: (e1.setup(), vc.run_unit('sentinel', thunk))[1]
+
+
+def ts_search(item_size, ms):
+    def search(seed, hints=()):
+        import datetime
+        import time
+        import dateutil.tz
+        rnd = random.Random(seed)
+        old = os.environ.get('TZ')
+        try:
+            for tz in ('UTC', 'Europe/Budapest', 'America/New_York', 'Asia/Kolkata', 'Australia/Lord_Howe', 'Europe/Moscow', 'Pacific/Apia'):
+                os.environ['TZ'] = tz
+                time.tzset()
+                for base in [0, 1, 86399, 1625140800, 1616893200, 1635642000, 2 ** 31 - 1, 2 ** 31, 2 ** 32 - 2] + \
+                        [rnd.randrange(0, 2 ** 32 - 1) for _ in range(20)]:
+                    m = rnd.randrange(1000) if ms else 0
+                    stamp = base * 1000 + m if ms else base
+                    if stamp >= 256 ** item_size - 1:
+                        continue
+                    for aware in (False, True):
+                        t = datetime.datetime.fromtimestamp(base, dateutil.tz.UTC) + datetime.timedelta(milliseconds=m)
+                        if not aware:
+                            t = t.replace(tzinfo=None)
+                        call = 'TZ=%s compose_timestamp(%r, milliseconds=%s, item_size=%d)' % (tz, t, ms, item_size)
+                        try:
+                            c = ComposerBinary()
+                            c.compose_timestamp(t, milliseconds=ms, item_size=item_size)
+                            wire = bytes(c.composed)
+                        except Exception as ex:
+                            return dict(reproduced=True, call=call, expected=stamp.to_bytes(item_size, 'big').hex(), observed=repr(ex)[:100])
+                        if wire != stamp.to_bytes(item_size, 'big'):
+                            return dict(reproduced=True, call=call, expected=stamp.to_bytes(item_size, 'big').hex(), observed=wire.hex())
+                        p = ParserBinary(wire)
+                        p.parse_timestamp('t', milliseconds=ms, item_size=item_size)
+                        want = datetime.datetime.fromtimestamp(base, dateutil.tz.UTC) + datetime.timedelta(milliseconds=m)
+                        if p['t'] != want:
+                            return dict(reproduced=True, call='parse_timestamp of ' + wire.hex(), expected=repr(want), observed=repr(p['t']))
+                c = ComposerBinary()
+                c.compose_timestamp(None, milliseconds=ms, item_size=item_size)
+                p = ParserBinary(bytes(c.composed))
+                p.parse_timestamp('t', milliseconds=ms, item_size=item_size)
+                if bytes(c.composed) != b'\xff' * item_size or p['t'] is not None:
+                    return dict(reproduced=True, call='compose_timestamp(None, milliseconds=%s, item_size=%d) and back' % (ms, item_size),
+                                expected='ff.. and None', observed='%s -> %r' % (bytes(c.composed).hex(), p['t']))
+        finally:
+            if old is None:
+                os.environ.pop('TZ', None)
+            else:
+                os.environ['TZ'] = old
+            time.tzset()
+        return dict(reproduced=False)
+    return search
+
+
+# ------------------------------------------------------------------------------------------------ flag sets
+def flag_enums():
+    from cryptoparser.tls.mysql import MySQLCapability, MySQLStatusFlag
+    from cryptoparser.tls.rdp import RDPProtocol, RDPNegotiationRequestFlags, RDPNegotiationResponseFlags
+    from cryptoparser.dnsrec.record import DnsSecFlag
+    return [(MySQLCapability, 2, 0, ByteOrder.LITTLE_ENDIAN), (MySQLCapability, 2, 16, ByteOrder.LITTLE_ENDIAN),
+            (MySQLCapability, 4, 0, ByteOrder.LITTLE_ENDIAN), (MySQLStatusFlag, 2, 0, ByteOrder.LITTLE_ENDIAN),
+            (RDPProtocol, 4, 0, ByteOrder.LITTLE_ENDIAN), (RDPNegotiationRequestFlags, 1, 0, ByteOrder.LITTLE_ENDIAN),
+            (RDPNegotiationResponseFlags, 1, 0, ByteOrder.LITTLE_ENDIAN), (DnsSecFlag, 2, 0, ByteOrder.NETWORK)]
+
+
+def flags_unit(ecls, size, shift, order):
+    def thunk():
+        P = E.cur()
+        ms = list(ecls)
+        fl = SFlags(ecls, {m: V.fresh_bool('in_' + m.name) for m in ms})
+        P.inputs['flags'] = fl
+        c = composer(order)
+        out = vc.outcome_of(lambda: I.call(I.getattr_(c, 'compose_numeric_flags'), [fl, size], dict(shift_right=shift)))
+        want = W.flags_value(fl, shift)                              # OR of the members, written bit by bit
+        if out.kind == 'raise':
+            e1.record_path_fact(P, 'rejected only with InvalidValue', out.value.cls is InvalidValue)
+            P.oblige('rejected only when the OR does not fit the width', z3.Not(z3.And(want >= 0, want < 256 ** size)))
+            return
+        wire = ops.as_seq(c.f['_composed'])
+        P.oblige('composed value is the OR of the members', z3.And(wire.n == size, S.dec(wire.at, 0, size, order.value) == want))
+        p = parser(wire.copy('bytes'), order)
+        I.call(I.getattr_(p, 'parse_numeric_flags'), ['f', size, ecls], dict(shift_left=shift))
+        back = p.f['_parsed_values']['f']
+        bits = back.bits if isinstance(back, SFlags) else {m: z3.BoolVal(m in back) for m in ms}
+        value = want * (2 ** shift)
+        for m in ms:
+            mv = int(m.value)
+            visible = mv & (((256 ** size) - 1) << shift)
+            hit = W.flags_value({m: None} and [m], 0)                 # the member's own bits
+            # parse returns exactly the members that share a bit with the value
+            share = z3.Or(*[(value / (2 ** b)) % 2 == 1 for b in range(mv.bit_length()) if (mv >> b) & 1]) if mv else z3.BoolVal(False)
+            P.oblige('member %s is reported iff one of its bits is set in the value' % m.name, bits.get(m, z3.BoolVal(False)) == share)
+        single = all(int(m.value) and int(m.value) & (int(m.value) - 1) == 0 for m in ms) and len({int(m.value) for m in ms}) == len(ms)
+        if single:
+            for m in ms:
+                if (int(m.value) >> shift) and (int(m.value) >> shift) < 256 ** size:
+                    P.oblige('round trip: %s is in the parsed set iff it was in the composed set' % m.name, bits[m] == fl.bits[m])
+    return lambda: (e1.setup(), vc.run_unit('flags', thunk))[1]
+
+
+def flags_search(ecls, size, shift, order):
+    def search(seed, hints=()):
+        rnd = random.Random(seed)
+        ms = list(ecls)
+        for _ in range(200):
+            sub = {m for m in ms if rnd.random() < 0.4}
+            want = 0
+            for m in sub:
+                want |= int(m.value) >> shift
+            call = 'compose_numeric_flags(%r, %d, shift_right=%d) %s' % (sorted(m.name for m in sub), size, shift, order.name)
+            try:
+                c = ComposerBinary(byte_order=order)
+                c.compose_numeric_flags(sub, size, shift)
+                wire = bytes(c.composed)
+            except InvalidValue:
+                if want < 256 ** size:
+                    return dict(reproduced=True, call=call, expected='value %d' % want, observed='InvalidValue')
+                continue
+            little = order in (ByteOrder.LITTLE_ENDIAN, ByteOrder.NATIVE)
+            if want >= 256 ** size or wire != want.to_bytes(size, 'little' if little else 'big'):
+                return dict(reproduced=True, call=call, expected='%d' % want, observed=wire.hex())
+            p = ParserBinary(wire, byte_order=order)
+            p.parse_numeric_flags('f', size, ecls, shift)
+            expect = {m for m in ms if int(m.value) & (want << shift)}
+            if set(p['f']) != expect:
+                return dict(reproduced=True, call='parse_numeric_flags of %s' % wire.hex(), expected=repr(sorted(m.name for m in expect)),
+                            observed=repr(sorted(m.name for m in p['f'])))
+        return dict(reproduced=False)
+    return search
+
+
+def native_flags_unit(ecls, size, shift, order):
+    def run():
+        res = vc.UnitResult('flags-native')
+        w = flags_search(ecls, size, shift, order)(12345)
+        res.paths = 1
+        res.obligations.append(dict(name='200 random subsets of %s compose to the OR of their members and parse back' % ecls.__name__,
+                                    kind='sampled', status='failed' if w.get('reproduced') else 'proved',
+                                    detail=dict(inputs=w) if w.get('reproduced') else None, where=None, seconds=0))
+        res.extra['bounded'] = ['native sampling of 200 random subsets (not a proof)']
+        return res
+    return run
+
+
+# ------------------------------------------------------------------------------------------------ mpints (bounded)
+def ref_ssh_mpint(v):
+    """RFC 4251 section 5: two's complement, big-endian, minimal length, zero is the empty string"""
+    if v == 0:
+        return b'\x00\x00\x00\x00'
+    n = 1
+    while True:
+        try:
+            b = v.to_bytes(n, 'big', signed=True)
+            break
+        except OverflowError:
+            n += 1
+    return len(b).to_bytes(4, 'big') + b
+
+
+def mpint_values(seed):
+    rnd = random.Random(seed)
+    vals = {0, 1, -1, 127, 128, 255, 256, -128, -129, -255, -256}
+    for k in list(range(0, 140)) + [255, 256, 257, 511, 512, 1023, 1024, 2047, 2048, 4095, 4096]:
+        for d in (-1, 0, 1):
+            vals.add((1 << k) + d)
+            vals.add(-((1 << k) + d))
+    for _ in range(200):
+        vals.add(rnd.getrandbits(rnd.randrange(1, 600)) * rnd.choice((1, -1)))
+    return sorted(vals)
+
+
+def ssh_mpint_violation(seed, negative_known=True):
+    for v in mpint_values(seed):
+        if v < 0 and negative_known and negative_region(v):
+            continue
+        call = 'compose_ssh_mpint(%s) [bit_length %d]' % (v if abs(v) < 10 ** 9 else hex(v)[:20] + '...', v.bit_length())
+        try:
+            c = ComposerBinary()
+            c.compose_ssh_mpint(v)
+            w = bytes(c.composed)
+            p = ParserBinary(w + b'\xaa')
+            p.parse_ssh_mpint('x')
+        except Exception as ex:
+            return dict(reproduced=True, call=call, expected='round trip', observed=repr(ex)[:100])
+        if p['x'] != v or p.parsed_length != len(w):
+            return dict(reproduced=True, call=call, expected='parse(compose(v)) == v', observed='%r (consumed %d of %d)' % (p['x'], p.parsed_length, len(w)))
+        if v >= 0 and w != ref_ssh_mpint(v):
+            return dict(reproduced=True, call=call, expected=ref_ssh_mpint(v).hex()[:40], observed=w.hex()[:40], key='not minimal')
+    return dict(reproduced=False)
+
+
+def negative_region(v):
+    """known finding KF-C11-negative-ssh-mpint: negative values whose bit length is a positive multiple of 32"""
+    return v < 0 and v.bit_length() > 0 and v.bit_length() % 32 == 0
+
+
+def fixed_mpint_violation(seed):
+    rnd = random.Random(seed)
+    for L in (1, 2, 3, 4, 5, 7, 8, 16, 20, 32, 64):
+        cands = [0, 1, 255, 256, 2 ** (8 * L) - 1, 2 ** (8 * L), 2 ** (8 * L) + 1, 2 ** (8 * L - 1), 2 ** (32 * ((L + 3) // 4)),
+                 2 ** (32 * ((L + 3) // 4)) + 5] + [rnd.getrandbits(8 * L) for _ in range(20)] + [rnd.getrandbits(8 * L + 40) for _ in range(5)]
+        for v in cands:
+            call = 'compose_mpint(%s, %d)' % (hex(v)[:24], L)
+            try:
+                c = ComposerBinary()
+                c.compose_mpint(v, L)
+                w = bytes(c.composed)
+            except InvalidValue:
+                if v < 2 ** (8 * L):
+                    return dict(reproduced=True, call=call, expected=v.to_bytes(L, 'big').hex()[:40], observed='InvalidValue')
+                continue
+            except Exception as ex:
+                return dict(reproduced=True, call=call, expected='bytes or InvalidValue', observed=repr(ex)[:100])
+            if v >= 2 ** (8 * L):
+                return dict(reproduced=True, call=call, expected='InvalidValue (does not fit %d bytes)' % L, observed=w.hex()[:40], key='truncated')
+            if w != v.to_bytes(L, 'big'):
+                return dict(reproduced=True, call=call, expected=v.to_bytes(L, 'big').hex()[:40], observed=w.hex()[:40])
+            p = ParserBinary(w)
+            p.parse_mpint('x', L)
+            if p['x'] != v:
+                return dict(reproduced=True, call='parse_mpint of ' + w.hex()[:40], expected=str(v)[:30], observed=str(p['x'])[:30])
+    return dict(reproduced=False)
+
+
+def sampled_unit(name, fn):
+    def run():
+        res = vc.UnitResult(name)
+        w = fn(20260928)
+        res.paths = 1
+        res.obligations.append(dict(name=name, kind='sampled', status='failed' if w.get('reproduced') else 'proved',
+                                    detail=dict(inputs=w) if w.get('reproduced') else None, where=None, seconds=0))
+        res.extra['bounded'] = ['native sampling against an independent reference encoder (boundary bit lengths 8k-1, 8k, 8k+1 up to 4096 bits, both signs); not a proof']
+        return res
+    return run
+
+
+def w_negative_mpint():
+    v = -((1 << 32) - 1)          # bit_length 32
+    c = ComposerBinary()
+    c.compose_ssh_mpint(v)
+    p = ParserBinary(bytes(c.composed))
+    p.parse_ssh_mpint('x')
+    return dict(reproduced=p['x'] != v, observed='compose_ssh_mpint(%d) -> %s -> parses as %d' % (v, bytes(c.composed).hex(), p['x']))
+
+
 def units(tier, seed):
-    return []
+    out = []
+    out.append(Unit('bounded/mpint-native/ssh', sampled_unit('SSH mpints round-trip and are minimal for non-negative values (sampled)', ssh_mpint_violation),
+                    search=lambda s, hints=(): ssh_mpint_violation(s), clause='C11 mpint (sampled)', backend='native-sampling',
+                    functions=['ComposerBinary.compose_ssh_mpint', 'ParserBinary.parse_ssh_mpint']))
+    out.append(Unit('bounded/mpint-native/fixed-length', sampled_unit('fixed-length mpints are exact and never truncated (sampled)', fixed_mpint_violation),
+                    search=lambda s, hints=(): fixed_mpint_violation(s), clause='C11 mpint (sampled)', backend='native-sampling',
+                    functions=['ComposerBinary.compose_mpint', 'ParserBinary.parse_mpint']))
+    for size in (4, 8):
+        for ms in (False, True):
+            tag = '%d-bytes/%s' % (size, 'milliseconds' if ms else 'seconds')
+            fns = ['ComposerBinary.compose_timestamp', 'ParserBinary.parse_timestamp']
+            out.append(Unit('prop/timestamp-roundtrip/%s' % tag, ts_roundtrip(size, ms), search=ts_search(size, ms), clause='C11 timestamps', functions=fns))
+            out.append(Unit('prop/timestamp-forever/%s' % tag, ts_sentinel(size, ms), search=ts_search(size, ms), clause='C11 timestamps', functions=fns))
+    for ecls, size, shift, order in flag_enums():
+        if len(list(ecls)) > 12:
+            # too many members for the bit-level proof within the budget: sampled natively (a bounded stand-in, reported
+            # as such and never counted among the discharged obligations)
+            out.append(Unit('bounded/flags-native/%s/%d-bytes/shift-%d' % (ecls.__name__, size, shift),
+                            native_flags_unit(ecls, size, shift, order), search=flags_search(ecls, size, shift, order),
+                            clause='C11 flags (sampled)', backend='native-sampling'))
+            continue
+        out.append(Unit('prop/flags/%s/%d-bytes/shift-%d' % (ecls.__name__, size, shift), flags_unit(ecls, size, shift, order),
+                        search=flags_search(ecls, size, shift, order), clause='C11 flags',
+                        functions=['ComposerBinary.compose_numeric_flags', 'ParserBinary.parse_numeric_flags']))
+    return out
